@@ -199,3 +199,211 @@ def random_program(rng: random.Random, n_lines: int):
     if muted:
         lines.append('#unmute')
     return '\n'.join(lines) + '\n'
+
+
+# ---------------------------------------------------------------- read-phase traces (spec/Trace_Read.tla)
+
+def to_read_trace(events, init_symbols, fallback_zones=None):
+    """line / incb / eof events -> (cfg, trace) for Trace_Read.tla; None if the name universes are exceeded."""
+    import re
+    runner.import_repo()
+    from bespokeasm.utilities import parse_numeric_string
+    start = next((e for e in events if e['ev'] == 'start'), None)
+    zones_ev = next((e for e in events if e['ev'] == 'zones'), None)
+    if start is None:
+        return None
+    syms, zmap, scopes = {}, {'GLOBAL': 'GLOBAL'}, {}
+
+    def sym(n):
+        if n not in syms:
+            if len(syms) >= 8:
+                raise OverflowError
+            syms[n] = f'S{len(syms) + 1}'
+        return syms[n]
+
+    def zone(n):
+        if n not in zmap:
+            if len(zmap) > len(CANON):
+                raise OverflowError
+            zmap[n] = CANON[len(zmap) - 1]
+        return zmap[n]
+
+    created = set()
+    out = []
+    depth_files = 0
+    try:
+        initdefs = [[sym(n), 0] for n in init_symbols]
+        for e in events:
+            if e['ev'] == 'incb':
+                out.append({'ev': 'incb', 'k': 'incb', 'n': '', 'a': 0, 'b': 0})
+                depth_files += 1
+                continue
+            if e['ev'] == 'eof':
+                if depth_files > 0:
+                    out.append({'ev': 'ince', 'k': 'ince', 'n': '', 'a': 0, 'b': 0})
+                    depth_files -= 1
+                continue
+            if e['ev'] != 'line':
+                continue
+            cls, text = e['cls'], e['text']
+            k, n, a, b = 'i1', '', 0, 0
+            if cls == 'ConditionLine':
+                br = e['branch'] or [False, False, False]
+                if text.startswith('#ifdef '):
+                    k, n = 'ifdef', sym(text.split()[1])
+                elif text.startswith('#ifndef '):
+                    k, n = 'ifndef', sym(text.split()[1])
+                elif text.startswith('#if '):
+                    k, a = 'ifx', 1 if br[0] else 0
+                elif text.startswith('#elif '):
+                    k, a = 'elifx', 1 if br[0] else 0
+                elif text == '#else':
+                    k = 'else'
+                elif text == '#endif':
+                    k = 'endif'
+                elif text == '#mute':
+                    k = 'mute'
+                else:
+                    k = 'unmute'
+            elif cls == 'DefineSymbolLine':
+                k, n = 'define', sym(text.split()[1])
+            elif cls == 'CreateMemzoneLine':
+                parts = text.split()
+                k, n, a, b = 'mkzone', zone(parts[1]), parse_numeric_string(parts[2]), parse_numeric_string(parts[3])
+                created.add(parts[1])
+            elif cls == 'LabelLine':
+                if e['is_constant']:
+                    k = 'i1'
+                else:
+                    lab = e['label']
+                    k, n = 'lab', ('l1' if lab.startswith('.') else 'f1' if lab.startswith('_') else 'g1')
+            elif cls == 'AddressOrgLine':
+                m = re.search(r'"([\w_]+)"\s*$', text)
+                if m:
+                    k, n = 'orgz', zone(m.group(1))
+                else:
+                    k = 'org'
+            elif cls == 'SetMemoryZoneLine':
+                k, n = 'zone', zone(text.split()[1])
+            sid = scopes.setdefault(e['scope_id'], len(scopes) + 1)
+            out.append({'ev': 'line', 'k': k, 'n': n, 'a': a, 'b': b, 'comp': bool(e['comp']), 'muted': bool(e['muted']),
+                        'zone': zone(e['zone']), 'depth': e['depth'], 'branch': [bool(x) for x in (e['branch'] or [])], 'scope': sid,
+                        'src': f'{e["file"]}:{e["line"]} {text[:50]}'})
+        prezones = []
+        if zones_ev is not None:
+            for zn, s, en in zones_ev['zones']:
+                if zn not in created:
+                    prezones.append({'n': zone(zn), 's': s, 'e': en})
+        elif fallback_zones is not None:
+            for zn, s, en in fallback_zones:
+                prezones.append({'n': zone(zn), 's': s, 'e': en})
+        else:
+            return None
+    except (OverflowError, IndexError, ValueError):
+        return None
+    cfg = {'addr_bits': start['addr_bits'], 'prezones': prezones, 'initdefs': initdefs}
+    return cfg, {'events': out}
+
+
+def validate_read(chk, items):
+    """items: (cfg, trace, label) -> list of (label, accepted, k, trace)."""
+    from concurrent.futures import ThreadPoolExecutor
+    groups = {}
+    for cfg, tr, label in items:
+        groups.setdefault(json.dumps(cfg, sort_keys=True), []).append((tr, label))
+
+    def one(args):
+        cfg, part = args
+        fd, path = tempfile.mkstemp(prefix='vrtrace_', suffix='.json', dir=runner.SCRATCH_ROOT)
+        with os.fdopen(fd, 'w') as f:
+            json.dump({'cfg': cfg, 'traces': [{'events': [{kk: vv for kk, vv in ev.items() if kk != 'src'} for ev in m[0]['events']]} for m in part]}, f)
+        try:
+            res = tlc.run_tlc('Trace_Read', 'SPECIFICATION TraceSpec\nINVARIANT Accepted\n', workers=1, env={'TRACE_FILE': path}, timeout=3000, heap='6g')
+            runs = [res]
+            acc = {a['t'] for a in res.tags.get('ACC', [])}
+            where = {}
+            if len(acc) < len(part):
+                res2 = tlc.run_tlc('Trace_Read', 'SPECIFICATION TraceSpec\nINVARIANT Progress\n', workers=1, env={'TRACE_FILE': path}, timeout=3000, heap='6g')
+                runs.append(res2)
+                for a in res2.tags.get('AT', []):
+                    where[a['t']] = max(where.get(a['t'], 0), a['k'])
+            return [(label, j in acc, where.get(j, 0), tr) for j, (tr, label) in enumerate(part, start=1)], runs
+        finally:
+            os.unlink(path)
+
+    jobs = []
+    for key, members in groups.items():
+        for off in range(0, len(members), 300):
+            jobs.append((json.loads(key), members[off:off + 300]))
+    results = []
+    with ThreadPoolExecutor(max_workers=6) as ex:
+        for out, runs in ex.map(one, jobs):
+            results.extend(out)
+            for rr in runs:
+                chk.add_tlc(rr)
+    return results
+
+
+def random_files(rng: random.Random, n_lines: int):
+    """A multi-file carrier program with nested conditionals, definitions, muting, zones, includes and all label classes."""
+    files = {'main.asm': []}
+    ninc = 0
+    syms_defined = []
+
+    def gen(fname, n, depth_inc):
+        nonlocal ninc
+        lines = files[fname]
+        open_blocks = []      # each: has_else
+        local_ok = False
+        nlab = 0
+        for _ in range(n):
+            c = rng.random()
+            if c < 0.10:
+                nlab += 1
+                pre = rng.choice(['', '_', '.'])
+                if pre == '.' and not local_ok:
+                    pre = ''
+                name = f'{pre}{fname[0]}{len(lines)}x{nlab}'
+                if pre != '.':
+                    local_ok = True
+                lines.append(f'{name}:')
+            elif c < 0.30:
+                lines.append(rng.choice(['nop', f'ld8 {rng.randrange(256)}', f'.byte {rng.randrange(256)}, {rng.randrange(256)}']))
+            elif c < 0.40:
+                s = f'SYM{rng.randrange(6)}'
+                if s not in syms_defined:
+                    syms_defined.append(s)
+                    lines.append(f'#define {s} {rng.randrange(3)}')
+                else:
+                    lines.append('nop')
+            elif c < 0.58 and len(open_blocks) < 3:
+                s = f'SYM{rng.randrange(6)}'
+                lines.append(rng.choice([f'#ifdef {s}', f'#ifndef {s}', f'#if {s} == {rng.randrange(3)}', f'#if {s}']))
+                open_blocks.append(False)
+            elif c < 0.66 and open_blocks and not open_blocks[-1]:
+                if rng.random() < 0.5:
+                    lines.append(f'#elif SYM{rng.randrange(6)} == {rng.randrange(3)}')
+                else:
+                    lines.append('#else')
+                    open_blocks[-1] = True
+            elif c < 0.78 and open_blocks:
+                lines.append('#endif')
+                open_blocks.pop()
+            elif c < 0.83:
+                lines.append(rng.choice(['#mute', '#unmute', '#emit']))
+            elif c < 0.88:
+                lines.append(rng.choice(['.memzone zone1', '.memzone GLOBAL', f'.org {rng.randrange(1, 30)} "zone1"']))
+                local_ok = False
+            elif c < 0.92 and depth_inc < 2 and ninc < 3:
+                ninc += 1
+                inc = f'inc{ninc}.asm'
+                files[inc] = []
+                lines.append(f'#include "{inc}"')
+                gen(inc, rng.randrange(2, 12), depth_inc + 1)
+            else:
+                lines.append(f'.fill {rng.randrange(0, 3)}, 7')
+        for _ in open_blocks:
+            lines.append('#endif')
+
+    gen('main.asm', n_lines, 0)
+    return {f: '\n'.join(ls) + '\n' for f, ls in files.items()}
